@@ -144,14 +144,26 @@ const MT_TOTAL: usize = 16 + 4 + 16 + 4 + 12 + 8 + 8 + 12 + 8; // 88
 #[kani::proof]
 #[kani::unwind(20)]
 #[kani::stub(core::str::validations::run_utf8_validation, crate::verif_support::refs::ascii_utf8_validation)]
-fn c14_material_from_existing_minimal() {
+fn c14_material_from_existing_minimal() { minimal_material(4); }
+/// C18: the same material with fewer than four bytes of additional data (older materials store none; the field is
+/// padded to four bytes either way): parsing must not crash
+#[kani::proof]
+#[kani::unwind(20)]
+#[kani::stub(core::str::validations::run_utf8_validation, crate::verif_support::refs::ascii_utf8_validation)]
+fn c18_material_without_additional_data() { minimal_material(0); }
+#[kani::proof]
+#[kani::unwind(20)]
+#[kani::stub(core::str::validations::run_utf8_validation, crate::verif_support::refs::ascii_utf8_validation)]
+fn c18_material_with_two_bytes_of_additional_data() { minimal_material(2); }
+
+fn minimal_material(additional: u8) {
     let mut b: [u8; MT_TOTAL] = kani::any();
     let put16 = |b: &mut [u8; MT_TOTAL], o: usize, v: u16| { let x = v.to_le_bytes(); b[o] = x[0]; b[o + 1] = x[1]; };
     let put32 = |b: &mut [u8; MT_TOTAL], o: usize, v: u32| { let x = v.to_le_bytes(); b[o] = x[0]; b[o + 1] = x[1]; b[o + 2] = x[2]; b[o + 3] = x[3]; };
     let le32 = |b: &[u8; MT_TOTAL], o: usize| u32::from_le_bytes([b[o], b[o + 1], b[o + 2], b[o + 3]]);
     // file header: version, file size, data set size (symbolic), string table size, package name offset, counts
     put16(&mut b, 8, 16); put16(&mut b, 10, 8);
-    b[12] = 1; b[13] = 0; b[14] = 0; b[15] = 4;               // 1 texture, no uv / colour sets, 4 bytes of additional data
+    b[12] = 1; b[13] = 0; b[14] = 0; b[15] = additional;      // 1 texture, no uv / colour sets, 4 (or fewer) bytes of additional data
     // 16: texture offset table (1 entry, symbolic); 20: strings
     let strings = b"t/a.tex\0sh.shpk\0";
     let mut i = 0;
